@@ -110,34 +110,35 @@ class DefaultEvaluatorStep(PlanStep):
                 variables, compute_functions=True, compute_gradients=False
             )
         except OptimizationAborted as exc:
+            # The evaluation was aborted, there are no results to report:
             exit_code = exc.exit_code
-
-        assert results
-        assert isinstance(results[0], FunctionResults)
-        if results[0].functions is None:
-            exit_code = OptimizerExitCode.TOO_FEW_REALIZATIONS
-
-        if metadata is not None:
-            for item in results:
-                item.metadata = deepcopy(metadata)
-
-        data: dict[str, Any] = {}
-        if transforms is not None:
-            data["transformed_results"] = results
-            data["results"] = [
-                item.transform_from_optimizer(transforms) for item in results
-            ]
         else:
-            data["results"] = results
+            assert results
+            assert isinstance(results[0], FunctionResults)
+            if results[0].functions is None:
+                exit_code = OptimizerExitCode.TOO_FEW_REALIZATIONS
 
-        self.emit_event(
-            Event(
-                event_type=EventType.FINISHED_EVALUATION,
-                config=config,
-                source=self.id,
-                data=data,
+            if metadata is not None:
+                for item in results:
+                    item.metadata = deepcopy(metadata)
+
+            data: dict[str, Any] = {}
+            if transforms is not None:
+                data["transformed_results"] = results
+                data["results"] = [
+                    item.transform_from_optimizer(transforms) for item in results
+                ]
+            else:
+                data["results"] = results
+
+            self.emit_event(
+                Event(
+                    event_type=EventType.FINISHED_EVALUATION,
+                    config=config,
+                    source=self.id,
+                    data=data,
+                )
             )
-        )
 
         if exit_code == OptimizerExitCode.USER_ABORT:
             self.plan.abort()
